@@ -37,6 +37,9 @@ func TestMain(m *testing.M) { vr.Main(m) }
 type Case struct {
 	Ops    []pdfmodel.Op            `json:"ops"`
 	Forms  map[string]pdfmodel.Form `json:"forms,omitempty"`
+	// Scoped: every content stream names the forms it paints X1, X2, ... through its own /Resources (the page's
+	// dictionary for the page, the form's own for a form), so one name stands for different forms in different scopes
+	Scoped bool `json:"scoped,omitempty"`
 	Labels []string                 `json:"labels"`
 }
 
@@ -94,7 +97,27 @@ func checkCase(c Case) error {
 	if err != nil {
 		return fmt.Errorf("generator produced a program outside the grammar: %v", err)
 	}
-	prog := spell(c.Ops)
+	// scoped names: rename the Do operands of one content stream to X1, X2, ... in order of first use
+	alias := func(ops []pdfmodel.Op) ([]pdfmodel.Op, map[string]string) {
+		if !c.Scoped {
+			return ops, nil
+		}
+		local := map[string]string{} // alias -> form
+		byForm := map[string]string{}
+		out := append([]pdfmodel.Op{}, ops...)
+		for i, op := range out {
+			if op.Name == "Do" {
+				if _, ok := byForm[op.Text]; !ok {
+					byForm[op.Text] = fmt.Sprintf("X%d", len(byForm)+1)
+					local[byForm[op.Text]] = op.Text
+				}
+				out[i].Text = byForm[op.Text]
+			}
+		}
+		return out, local
+	}
+	pageOps, pageAlias := alias(c.Ops)
+	prog := spell(pageOps)
 
 	newExtractor := func() *text.Extractor {
 		ex := text.NewExtractor()
@@ -106,19 +129,38 @@ func checkCase(c Case) error {
 				names = append(names, name)
 			}
 			sort.Strings(names)
+			num := map[string]int{}
+			for i, name := range names {
+				num[name] = 10 + i
+			}
 			for i, name := range names {
 				f := c.Forms[name]
-				data := spell(f.Ops)
+				fops, falias := alias(f.Ops)
+				data := spell(fops)
 				mat := core.Array{}
 				for _, v := range f.Matrix {
 					mat = append(mat, numObj(v))
 				}
-				objs[10+i] = &core.Stream{Dict: core.Dict{
+				d := core.Dict{
 					"Type": core.Name("XObject"), "Subtype": core.Name("Form"),
 					"BBox":   core.Array{core.Int(-10000), core.Int(-10000), core.Int(10000), core.Int(10000)},
 					"Matrix": mat, "Length": core.Int(len(data)),
-				}, Data: data}
+				}
+				if c.Scoped {
+					sub := core.Dict{}
+					for a, target := range falias {
+						sub[a] = core.IndirectRef{Number: num[target]}
+					}
+					d["Resources"] = core.Dict{"XObject": sub}
+				}
+				objs[10+i] = &core.Stream{Dict: d, Data: data}
 				xobj[name] = core.IndirectRef{Number: 10 + i}
+			}
+			if c.Scoped {
+				xobj = core.Dict{}
+				for a, target := range pageAlias {
+					xobj[a] = core.IndirectRef{Number: num[target]}
+				}
 			}
 			ex.SetResourceContext(core.Dict{"XObject": xobj}, func(r core.IndirectRef) (core.Object, error) {
 				if o, ok := objs[r.Number]; ok {
@@ -505,6 +547,10 @@ func genCase(t *rapid.T) Case {
 	b.finish()
 	c := Case{Ops: b.ops}
 	if len(forms) > 0 {
+		c.Scoped = rapid.Bool().Draw(t, "scopedNames")
+		if c.Scoped {
+			labels["form-names-scoped"] = true
+		}
 		c.Forms = forms
 	}
 	// outcome labels from the reference run
